@@ -9,7 +9,7 @@ const char *MC_RULE =
     "has mode 2 over origin a, getDirectedEdgeOrigin/Destination and directedEdgeToCells decode to (a,b); originToDirectedEdges(a) as "
     "a set equals these edges (one null slot on a pentagon); directedEdgeToBoundary(a->b) equals the stretch of a's boundary shared "
     "with b in a's order (2 or 3 points, 1e-12 rad) and is the reverse of b->a; edgeLengthRads equals the sum of chart distances "
-    "(1e-9 rel), Km/M scalings (1e-14). far(a): every b at BFS distance 0,2,3 yields E_NOT_NEIGHBORS. cand(x): all 16 modes x 8 "
+    "(1e-9 rel), Km/M scalings (1e-14). far(a): every b at BFS distance 0,2,3 yields E_NOT_NEIGHBORS, and so do the parent, the children and the centre grandchild of every cell within distance 3 (both argument orders). cand(x): all 16 modes x 8 "
     "reserved values x high bit over x: isValidDirectedEdge iff mode 2, high 0, direction 1..6, spec-valid origin, not direction 1 on "
     "a pentagon. Non-trivial: pentagon, pentagon neighbour, 3-point stretch (icosahedron edge crossing), or candidate accepted.";
 const char *MC_ASSUME[] = {"G_geo and shared stretches from src/geo.h (judged by C08)", "Earth radius 6371.007180918475 km", NULL};
@@ -116,6 +116,28 @@ static void op_far(const McArg *a) {
         mc_ctr(3, 1);
         H3Error er = cellsToDirectedEdge(h, bc[i], &e);
         MC_CHECK(er == E_NOT_NEIGHBORS, "cellsToDirectedEdge(%" PRIx64 ",%" PRIx64 ") returned %d (edge %" PRIx64 ") for cells %d steps apart; expected E_NOT_NEIGHBORS", h, bc[i], er, e, bd[i]);
+    }
+    // valid cells of another resolution are never neighbours: the parent, every child and the centre grandchild of every cell of the
+    // ball (the origin itself and its neighbours included), in both argument orders
+    for (int i = 0; i < n; i++) {
+        uint64_t b = bc[i], other[10];
+        int r = (int)((b >> 52) & 15), no = 0;
+        if (r > 0) other[no++] = (b & ~((uint64_t)15 << 52)) | ((uint64_t)(r - 1) << 52) | ((uint64_t)7 << (3 * (15 - r)));
+        if (r < 15)
+            for (int d = 0; d < 7; d++) {
+                if (d == 1 && spec_is_pentagon(b)) continue;
+                other[no++] = (b & ~((uint64_t)15 << 52) & ~((uint64_t)7 << (3 * (14 - r)))) | ((uint64_t)(r + 1) << 52) | ((uint64_t)d << (3 * (14 - r)));
+            }
+        if (r < 14) other[no++] = (b & ~((uint64_t)15 << 52) & ~((uint64_t)63 << (3 * (13 - r)))) | ((uint64_t)(r + 2) << 52);
+        for (int k = 0; k < no; k++)
+            for (int dir = 0; dir < 2; dir++) {
+                uint64_t x = dir ? other[k] : h, y = dir ? h : other[k], e = CANARY;
+                mc_trans(1);
+                mc_ctr(3, 1);
+                H3Error er = cellsToDirectedEdge(x, y, &e);
+                MC_CHECK(isValidCell(other[k]), "harness: %" PRIx64 " is not a cell", other[k]);
+                MC_CHECK(er == E_NOT_NEIGHBORS, "cellsToDirectedEdge(%" PRIx64 ",%" PRIx64 ") returned %d (edge %" PRIx64 ") for valid cells of different resolutions; expected E_NOT_NEIGHBORS", x, y, er, e);
+            }
     }
 }
 static void op_cand(const McArg *a) {
